@@ -40,7 +40,7 @@ Proof.
   - apply dec_text_no_esc.
   - unfold json_str. constructor; [discriminate|]. apply Forall_app. split; [|constructor; [discriminate|constructor]].
     induction s as [|c s IH]; cbn [flat_map]; [constructor|]. apply Forall_app. split; [apply json_char_no_esc|exact IH].
-  - exact H.
+  - unfold float_json. repeat (match goal with |- no_esc (if ?b then _ else _) => destruct b; [ch_solve|] end). exact H.
   - constructor.
 Qed.
 Lemma json_no_esc v : pyval_clean v -> no_esc (json v).
